@@ -492,6 +492,16 @@ def _form_of(ids, rule):
             [ids.cls(c) for c in rule.children], eqv]
 
 
+def _forget_scans_all():
+    """does RecomputingDict.__getitem__ go on to the other labelled classes when the classes of the key do not
+    give the rule back (fix 59cdf67)?  The model has both behaviours (RuleDB/Model.v rec_getitem_x)."""
+    import inspect
+
+    from comb_spec_searcher.rule_db.forget import RecomputingDict
+
+    return "other_labels" in inspect.getsource(RecomputingDict.__getitem__)
+
+
 def _findrule_observation(case, res):
     """(model input, what the real rules() did) for the pruning databases' extractor"""
     from comb_spec_searcher.strategies.strategy import Strategy
@@ -526,7 +536,8 @@ def _findrule_observation(case, res):
                 nocap.append(i)
     cache = [-1 if x is None else int(bool(x)) for x in cache0]
     entries = [[p, list(cs)] for p, cs in ex.rules_dict.items()]
-    fr_in = [[int(forget), _convert_flag()], empty, strats, order, classes, cache, rs, es, entries, nocap]
+    fr_in = [[(2 if _forget_scans_all() else 1) if forget else 0, _convert_flag()], empty, strats, order, classes, cache,
+             rs, es, entries, nocap]
     info = {"err": err, "nforms": len(forms), "kinds": sorted({f[0] for f in forms}),
             "new_labels": nafter - n0}
     return fr_in, [err, forms, nafter], info
